@@ -363,6 +363,8 @@ mod portable;
 mod registry;
 mod ty;
 mod utils;
+#[cfg(scale_info_verif)]
+mod verif_hooks;
 
 #[doc(hidden)]
 pub use scale;
